@@ -43,8 +43,132 @@ class Digest(bytes):
     pass
 
 
+def base_frame(n=8):
+    import pandas
+    return pandas.DataFrame({"k": list("abcdefgh")[:n], "v": [float(i) for i in range(n)], "i": list(range(10, 10 + n))})
+
+
+def _renamed_index(df, name):
+    df = df.copy()
+    df.index.name = name
+    return df
+
+
+def _frames():
+    """The catalogue of pandas frames, by name: each entry sits at a boundary of what the parquet file written by the pandas codec has to
+    carry besides the cells (the index: its labels, kind, names; the dtypes; the labels and names of the columns; the attrs)."""
+    import numpy
+    import pandas as pd
+    B = base_frame
+    stamps = ["2020-01-01", "2020-03-01 12:00", "2019-12-31"]
+
+    def with_attrs():
+        df = B()
+        df.attrs = {"source": "sensor-7", "unit": "m"}
+        return df
+
+    def columns_named():
+        df = B()
+        df.columns.name = "fields"
+        return df
+
+    return {
+        # --- the index: positional (RangeIndex) in every form that slicing produces
+        "default": lambda: B(),
+        "range_offset": lambda: B().iloc[3:],                       # rows left after dropping header rows: labels 3..7
+        "range_step": lambda: B().iloc[::2],                        # every other row: labels 0, 2, 4, 6
+        "range_offset_step": lambda: B().iloc[1::3],                # labels 1, 4, 7
+        "range_reversed": lambda: B().iloc[::-1],                   # labels 7..0
+        "range_named": lambda: _renamed_index(B(), "row"),
+        "range_offset_named": lambda: _renamed_index(B().iloc[2:6], "row"),
+        "range_from_one": lambda: B().set_axis(pd.RangeIndex(1, 9), axis=0),     # 1-based row numbers
+        "range_empty_slice": lambda: B().iloc[5:5],                 # no row, RangeIndex(5, 5)
+        "range_one_row": lambda: B().iloc[6:7],
+        # --- the index: integer labels
+        "int_selected": lambda: B()[B().v % 2 == 1],                # boolean selection: labels 1, 3, 5, 7
+        "int_selected_none": lambda: B()[B().v > 100],              # boolean selection that keeps nothing
+        "int_duplicated": lambda: B().set_axis([3, 1, 3, 0, 7, 7, 2, 1], axis=0),
+        "int_named": lambda: B().set_index("i"),
+        "int_sorted_values": lambda: B().sort_values("v", ascending=False),      # labels 7..0 as plain integers
+        "uint8_index": lambda: B(3).set_axis(pd.Index([1, 2, 3], dtype="uint8"), axis=0),
+        "float_index": lambda: B(3).set_axis([0.5, -1.0, 2.25], axis=0),
+        "bool_index": lambda: B(3).set_axis([True, False, True], axis=0),
+        # --- the index: other kinds of labels
+        "str_index": lambda: B().set_index("k"),
+        "str_index_unnamed": lambda: B().set_axis(list("hgfedcba"), axis=0),
+        "str_index_non_ascii": lambda: B(3).set_axis(["é", "", "😀 x"], axis=0),
+        "multi_index": lambda: B().set_index(["k", "i"]),
+        "multi_index_unnamed": lambda: B().set_axis(pd.MultiIndex.from_arrays([list("aabbccdd"), [1, 2] * 4]), axis=0),
+        "multi_index_half_named": lambda: B().set_axis(pd.MultiIndex.from_arrays([list("aabbccdd"), [1, 2] * 4], names=["g", None]), axis=0),
+        "datetime_index": lambda: B(3).set_axis(pd.DatetimeIndex(stamps), axis=0),
+        "datetime_index_regular": lambda: B().set_axis(pd.date_range("2020-01-01", periods=8, freq="D"), axis=0),
+        "datetime_index_tz": lambda: B(3).set_axis(pd.DatetimeIndex(stamps, tz="Europe/Paris"), axis=0),
+        "timedelta_index": lambda: B(3).set_axis(pd.to_timedelta([0, 90, 3600], unit="s"), axis=0),
+        "period_index": lambda: B(3).set_axis(pd.period_range("2020-01", periods=3, freq="M"), axis=0),
+        "categorical_index": lambda: B(3).set_axis(pd.CategoricalIndex(["lo", "hi", "lo"], categories=["lo", "hi", "mid"]), axis=0),
+        "index_named_like_a_column": lambda: B().set_axis(pd.Index(range(8), name="v"), axis=0),
+        "index_named_index": lambda: B().set_axis(pd.Index(list("hgfedcba"), name="index"), axis=0),
+        # --- the cells: one frame per family of dtypes
+        "categorical_columns": lambda: pd.DataFrame({"c": pd.Categorical(["a", "b", "a", None], categories=["b", "a", "z"]),
+                                                     "o": pd.Categorical(["lo", "hi", "lo", "hi"], categories=["lo", "hi"], ordered=True)}),
+        "datetime_columns": lambda: pd.DataFrame({"d": pd.to_datetime(["2020-01-01", None, "2262-01-01"]),
+                                                  "z": pd.to_datetime(["2020-01-01", "2020-06-01", None]).tz_localize("UTC"),
+                                                  "t": pd.to_timedelta([1, None, 3], unit="s")}),
+        "nullable_columns": lambda: pd.DataFrame({"i": pd.array([1, None, 3], dtype="Int64"), "b": pd.array([True, None, False], dtype="boolean"),
+                                                  "s": pd.array(["x", None, "é"], dtype="string"), "f": pd.array([1.5, None, 2], dtype="Float64")}),
+        "object_columns": lambda: pd.DataFrame({"o": ["x", None, "y\r\nz"], "by": [b"\x00\xff", b"", None]}),
+        "float_columns": lambda: pd.DataFrame({"f": [float("nan"), float("inf"), -0.0, 5e-324], "g": numpy.array([1, 2, 3, 4], dtype="float32")}),
+        "small_int_columns": lambda: pd.DataFrame({"a": numpy.array([-128, 127], dtype="int8"), "b": numpy.array([0, 2 ** 64 - 1], dtype="uint64"), "c": [True, False]}),
+        "interval_column": lambda: pd.DataFrame({"iv": pd.interval_range(0, 3)}),
+        "list_column": lambda: pd.DataFrame({"l": [[1, 2], [], None]}),
+        "mixed_object_column": lambda: pd.DataFrame({"m": [1, "a", None]}),
+        # --- the shape and the labels of the columns
+        "no_row": lambda: B().iloc[0:0],
+        "no_row_no_column": lambda: pd.DataFrame(),
+        "no_column": lambda: pd.DataFrame(index=pd.RangeIndex(3)),                 # three rows, no column
+        "no_column_labelled": lambda: pd.DataFrame(index=["a", "b"]),
+        "one_cell": lambda: pd.DataFrame({"x": [1]}),
+        "wide": lambda: pd.DataFrame({f"c{j:03d}": [j, j + 1] for j in range(300)}),
+        "wide_sliced": lambda: pd.DataFrame({f"c{j:03d}": [j, j + 1, j + 2] for j in range(300)}).iloc[1:],
+        "column_names_text": lambda: pd.DataFrame({"é ✓": [1], "a.b": [2], "": [3], "index": [4], "__index_level_0__x": [5], "level_0": [6]}),
+        "column_names_int": lambda: pd.DataFrame({0: [1, 2], 1: [3, 4]}),
+        "column_names_mixed": lambda: pd.DataFrame({0: [1, 2], "a": [3, 4]}),
+        "column_names_duplicated": lambda: pd.DataFrame([[1, 2]], columns=["a", "a"]),
+        "columns_named": columns_named,
+        "multi_columns": lambda: pd.DataFrame([[1, 2, 3], [4, 5, 6]], columns=pd.MultiIndex.from_tuples([("a", "x"), ("a", "y"), ("b", "x")])),
+        "multi_columns_sliced": lambda: pd.DataFrame([[1, 2, 3], [4, 5, 6], [7, 8, 9]], columns=pd.MultiIndex.from_tuples([("a", "x"), ("a", "y"), ("b", "x")], names=["u", "w"])).iloc[1:],
+        "with_attrs": with_attrs,
+        # --- large (several row groups / pages)
+        "large_sliced": lambda: pd.DataFrame({"x": numpy.arange(300000), "s": ["r%d" % i for i in range(300000)]}).iloc[1000:],
+        "large_labelled": lambda: pd.DataFrame({"x": numpy.arange(200000)}, index=["r%d" % i for i in range(200000)]),
+    }
+
+
+def _series():
+    import pandas as pd
+    return {
+        "default": lambda: pd.Series([1.5, 2.5, float("nan")]),
+        "named_sliced": lambda: pd.Series(list(range(8)), name="v").iloc[3:],
+        "str_index": lambda: pd.Series([1, 2], index=pd.Index(["a", "é"], name="k"), name="n"),
+        "empty": lambda: pd.Series([], dtype="float64"),
+        "categorical": lambda: pd.Series(pd.Categorical(["a", "b", "a"], categories=["b", "a"], ordered=True)),
+    }
+
+
+CALLS = {}
+
+
+def note_call(name):
+    """execution log of the functions of the generated module of drive_codec_api.py (not a tracked variable: this module is not accepted)"""
+    CALLS[name] = CALLS.get(name, 0) + 1
+
+
 def make_value(spec):
     t = spec[0]
+    if t == "frame" and len(spec) > 1:
+        return _frames()[spec[1]]()
+    if t == "series":
+        return _series()[spec[1]]()
     if t == "strenum":
         return Color.GREEN
     if t == "strsub":
@@ -73,13 +197,83 @@ def make_value(spec):
     raise ValueError(t)
 
 
-def equal(a, b):
+def _labels(ix):
+    s = repr(list(ix[:6]))[:-1] + (", ...]" if len(ix) > 6 else "]")
+    return f"{type(ix).__name__}{s}" + (f" names={list(ix.names)}" if any(n is not None for n in ix.names) else "")
+
+
+def pandas_diff(got, want):
+    """None when the frame (the series) got is the frame want: cells, dtypes, labels / dtype / names of the index and of the columns,
+    categories, frequency of a regular date index, attrs; otherwise a short description of the first difference."""
+    import pandas
+    if type(got) is not type(want):
+        return f"a {type(got).__name__}: {got!r}"[:70]
     try:
+        if isinstance(want, pandas.DataFrame):
+            pandas.testing.assert_frame_equal(got, want, check_exact=True, check_freq=False)   # the frequency attribute of an index is not part of equality (DataFrame.equals)
+        else:
+            pandas.testing.assert_series_equal(got, want, check_exact=True, check_freq=False)   # the frequency attribute of an index is not part of equality (DataFrame.equals)
+    except AssertionError as e:
+        msg = " ".join(str(e).split())[:90]
+        if got.shape != want.shape:
+            msg = f"shape {got.shape} instead of {want.shape} :: " + msg
+        elif not got.index.equals(want.index) or list(got.index.names) != list(want.index.names):
+            msg = f"index {_labels(got.index)} instead of {_labels(want.index)} :: " + msg
+        return msg
+    if got.attrs != want.attrs:
+        return f"attrs {got.attrs!r} instead of {want.attrs!r}"
+    if not got.equals(want):
+        return "DataFrame.equals is false"
+    return None
+
+
+def is_pandas(v):
+    return type(v).__module__.split(".")[0] == "pandas"
+
+
+def bare_roundtrip(value):
+    """What the parquet format itself (pandas.DataFrame.to_parquet / pandas.read_parquet with their defaults, no dds) does to a frame.
+    Only used to CLASSIFY a difference (the expected value always is the value that was stored): 'equal', 'altered:...', 'refused:...'."""
+    import pandas
+    import tempfile
+    if not isinstance(value, pandas.DataFrame):
+        return "n/a"
+    with tempfile.TemporaryDirectory(prefix="c17bare_") as td:
+        p = os.path.join(td, "f.parquet")
+        try:
+            value.to_parquet(p)
+        except Exception as e:  # noqa
+            return "refused:" + type(e).__name__
+        d = pandas_diff(pandas.read_parquet(p), value)
+        return "equal" if d is None else "altered:" + d
+
+
+def compare(got, spec, bare=None):
+    """'equal' | 'DIFFERENT:...' ; for a frame that differs, 'ASBARE:...' when the frame read back is exactly what the bare parquet round
+    trip gives (the difference is then a property of the format the codec documents, not of the way dds uses it)."""
+    want = make_value(spec)
+    if is_pandas(want) or is_pandas(got):
+        d = pandas_diff(got, want)
+        if d is None:
+            return "equal"
         import pandas
-        if isinstance(a, pandas.DataFrame) or isinstance(b, pandas.DataFrame):
-            return isinstance(a, pandas.DataFrame) and isinstance(b, pandas.DataFrame) and a.equals(b)
-    except ImportError:
-        pass
+        if isinstance(want, pandas.DataFrame) and isinstance(got, pandas.DataFrame):
+            import tempfile
+            with tempfile.TemporaryDirectory(prefix="c17bare_") as td:
+                p = os.path.join(td, "f.parquet")
+                try:
+                    want.to_parquet(p)
+                    if pandas_diff(got, pandas.read_parquet(p)) is None:
+                        return "ASBARE:" + d
+                except Exception:  # noqa
+                    pass
+        return "DIFFERENT:" + d
+    return "equal" if equal(got, want) else "DIFFERENT:" + repr(got)[:60]
+
+
+def equal(a, b):
+    if is_pandas(a) or is_pandas(b):
+        return pandas_diff(a, b) is None
     if type(a) in (Color, TaggedStr, Digest) or type(b) in (Color, TaggedStr, Digest):
         return type(a) == type(b) and a == b
     return a == b and (type(a) == type(b) or isinstance(a, (bytes, bytearray)))
@@ -168,7 +362,15 @@ def main():
                 out.append("S:not-killed")
             elif "fetch" in st:
                 v = store.fetch_blob(st["key"])
-                out.append("F:" + ("equal" if equal(v, make_value(st["fetch"])) else "DIFFERENT:" + repr(v)[:60]))
+                out.append("F:" + compare(v, st["fetch"]))
+            elif "bare" in st:
+                out.append("P:" + bare_roundtrip(make_value(st["bare"])))
+            elif "tool" in st:
+                # another tool: the file that the path designates under the data directory, opened with plain pandas
+                import pandas
+                store.sync_paths({st["path"]: st["key"]})
+                got = pandas.read_parquet(os.path.join(d, "dat", *[x for x in st["path"].split("/") if x]))
+                out.append("T:" + compare(got, st["tool"]))
             elif "raw" in st:
                 out.append("R:" + open(os.path.join(d, "int", "blobs", st["key"]), "rb").read().hex())
             elif "has" in st:
